@@ -80,5 +80,11 @@ Definition ops : list op := [
   ("st.ser.dv", fun a => match a with
      | [VI ma; VI mi; VI p; VI l; VI f; VB r] => VB (ser_dv (zN ma) (zN mi) (zN p) (zN l) (zN f) r)
      | _ => vbad end);
+  (* ORACLE: the row the property requires for a stream type, from the Spec code lists alone *)
+  ("st.spec.row", fun a => match a with
+     | [VI c] => let c := zN c in
+         VL [vn c; vbool true; vbool (mem c lags_codes); vbool (mem c audio_codes); vbool (mem c video_codes);
+             vbool (mem c scte35_codes); vbool (mem c id3_codes); vbool (mem c private_codes)]
+     | _ => vbad end);
   ("st.spec.codec", fun a => match a with [VI p; VI l] => VB (dv_codec (zN p) (zN l)) | _ => vbad end)
 ].
